@@ -1,6 +1,6 @@
 #!/bin/sh
 # usage: try_mutant.sh <patch.diff> <PROP> [extra check args]  — applies a seeded change to /repo, runs the check, always undoes it.
-patch="$1"; prop="$2"; shift 2
+patch="$(readlink -f "$1")"; prop="$2"; shift 2
 git -C /repo status --short | grep -v '^??' | grep . && { echo "/repo not clean"; exit 2; }
 cp /verif/evidence/$prop.json /tmp/evidence-$prop.keep 2>/dev/null
 git -C /repo apply "$patch" || { echo "patch does not apply"; exit 2; }
